@@ -480,3 +480,68 @@ def rule_root_access(ctx):
 
 
 RULES.append(("C20.k", "pull / peek / peek_key hand out the root of the heap", rule_root_access))
+
+
+def _root_var(b, operand, site, depth=0):
+    """the user variable (local with a debug name) whose current value the operand copies; None if it is computed."""
+    if operand.get("k") not in ("copy", "move") or operand["pl"]["p"] or depth > 6:
+        return None
+    l = operand["pl"]["l"]
+    if l in b.debug_names and any(not p for _, p in b.debug_names[l]):
+        return l
+    defs = b.reaching_defs(l, site)
+    roots = set()
+    for d in defs:
+        if d.is_term or d.node["r"]["r"] != "use":
+            return None
+        roots.add(_root_var(b, d.node["r"]["o"], d, depth + 1))
+    return next(iter(roots)) if len(roots) == 1 else None
+
+
+def rule_relink(ctx):
+    """Moving an item inside the heap keeps the slab's back-link true: in sift_up / sift_down every `heap[pos] = item` is followed
+    by `slab[item.slab_idx].heap_idx = pos` with the same position variable, with no assignment to that variable in between. (That the
+    positions visited are the right ones is the heap invariant, which is not decided here.)"""
+    P = ctx.prog
+    IP = "util::indexed_priority_queue::IndexedPriorityQueue::"
+    n = 0
+    for nm in ("sift_up", "sift_down"):
+        b = ctx.body(IP + nm)
+        if b is None:
+            continue
+        heap_w = []
+        for s in b.calls(r"^std::ops::IndexMut::index_mut$"):
+            ro = b.origins(s.args()[0], s)
+            if ro and all(origin_proj_names(o)[1][-1:] == [("f", "heap")] for o in ro):
+                heap_w.append(s)
+        links = []
+        for s in b.calls(r"unwrap_heap_index_mut$"):
+            dl = s.node["dest"]["l"]
+            for a in b.assigns():
+                if a.node["p"]["l"] == dl and a.node["p"]["p"] == ["*"] and a.node["r"]["r"] == "use":
+                    links.append((s, a))
+        ok = len(heap_w) == 2 and len(links) == 2
+        pairs = []
+        if ok:
+            for hw in heap_w:
+                hv = _root_var(b, hw.args()[1], hw)
+                cand = [(s, a) for (s, a) in links if b.dominates(hw, s) and _root_var(b, a.node["r"]["o"], a) == hv and hv is not None]
+                # the closest link store after this heap write
+                cand = [(s, a) for (s, a) in cand if not any(b.dominates(hw, hw2) and b.dominates(hw2, s) and hw2 != hw for hw2 in heap_w)]
+                if len(cand) != 1:
+                    ok = False
+                    break
+                s, a = cand[0]
+                # the position variable is not re-assigned between the two
+                redef = [d for d in b.all_defs(hv) if b.dominates(hw, d) and b.dominates(d, a) and d != hw]
+                if redef:
+                    ok = False
+                    break
+                pairs.append((hw, a))
+        n += 1
+        ctx.ob("relink|%s" % nm, ok and len(pairs) == 2,
+               "each of the two heap writes of %s is followed by a back-link store of the same position variable" % nm, heap_w + [a for _, a in links])
+    ctx.ob("floor|relink", n == 2, "sift_up and sift_down are analysed (found %d)" % n)
+
+
+RULES.append(("C20.l", "sift_up / sift_down re-link the slab entry to the position just written", rule_relink))
